@@ -32,7 +32,6 @@ func (c *caseCtx) violate(sig, detail string) {
 	c.rep.Violate(sig, fmt.Sprintf("%s (limit=%s wrapper=%d cfg=%v, after %d ops)", detail, limitKindNames[c.Cfg.Kind], c.Cfg.Wrapper, c.Cfg.P, len(c.History)), c.replay())
 }
 
-
 // newLimitCase builds a limit under test from a generated valid configuration and opens its trace case.
 func newLimitCase(tr *Trace, rep *Report, prop string, r *Rng, kind, wr int, cfgFix func(*LimitCfg)) (*LUT, *caseCtx, *Stream) {
 	cfg := GenLimitCfg(r, kind, wr)
